@@ -19,7 +19,7 @@ ASSUMPTIONS = [
     "periodic Cartesian grids; stretch factors restricted to the spacing menu; peak clause only for resolved single plane waves",
     "peak-based method compared within half a Fourier bin of the box (pi / L_max) as stated; other methods rtol 1e-9",
 ]
-SPACINGS = [1e-3, 1 / 32, 0.39, 1.0, 3.0, 10.0, 100.0]
+SPACINGS = [1e-9, 1e-3, 1 / 32, 0.39, 1.0, 3.0, 10.0, 100.0, 1e6]  # fifteen decades: no absolute length tolerance may matter
 SCALES = [-2.0, 0.5, 1e3]
 TWO_PI = 2 * math.pi
 
@@ -292,7 +292,7 @@ def run_case(case, ctx):
                     ctx.check("C17.field-scale", same(val), {"c": c, "length": val, "base": base, "dx": dx}, dict(t, spacing=dx))
             else:
                 # positive scaling with the automatic threshold rule
-                for c in (0.5, 1e3):
+                for c in (0.5, 1e3, 1e-9):
                     val = ls(c * f, dx, method, threshold="auto")
                     b2 = ls(f, dx, method, threshold="auto")
                     ctx.check("C17.field-scale", (not isinstance(val, str)) and (not isinstance(b2, str)) and abs(val - b2) <= 1e-9 * abs(b2), {"c": c, "length": val, "base": b2}, dict(t, spacing=dx))
